@@ -869,6 +869,48 @@ func TestC13(t *testing.T) {
 		}
 		run(kindSets[ki], seq, []string{kn[ki], "random"})
 	}
+	// "-bin" response metadata (header / trailer) whose wire value has EVERY length mod 4 (0..9 characters), padded and
+	// unpadded, valid and invalid alphabet: for a stream (Header, RecvMsg, Trailer) and for a unary call, with and without a
+	// stats handler (a unary reply's metadata is only decoded when one is installed); then a probe call
+	for _, v := range []string{"", "A", "AA", "AAA", "AAAA", "AAAAA", "AAAAAA", "AAAAAAA", "AAAAAAAA", "AAAAAAAAA", "QQ==", "QUE=", "QUJD", "QQ=", "QUFBQQ==",
+		"!", "!!", "!!!!", "!!!!!", "A!AA=", "====", "A===", "QQ==A", "-_-_", "+/+/"} {
+		for _, pos := range []string{"header", "trailer"} {
+			for _, first := range []string{"stream", "unary"} {
+				for _, st := range []bool{true, false} {
+					if idx%nsh != shard {
+						idx++
+						continue
+					}
+					var acts []CAct
+					hdr, trl := "ok:0", "ok:0"
+					if pos == "header" {
+						hdr = "bin:" + v
+					} else {
+						trl = "bin:" + v
+					}
+					if first == "stream" {
+						acts = append(acts, CAct{Op: "stream"}, CAct{Op: "header", C: 0}, CAct{Op: "recv", C: 0})
+						if pos == "header" {
+							acts = append(acts, CAct{Op: "deliver", Env: &EnvSpec{Call: 0, Hdr: hdr, Body: i64(4301), Trl: "none"}}, CAct{Op: "recv", C: 0},
+								CAct{Op: "deliver", Env: &EnvSpec{Call: 0, Hdr: "ok:0", Status: &[2]int64{0, 0}, Trl: "ok:0"}})
+						} else {
+							acts = append(acts, CAct{Op: "deliver", Env: &EnvSpec{Call: 0, Hdr: "ok:0", Body: i64(4301), Trl: "none"}}, CAct{Op: "recv", C: 0},
+								CAct{Op: "deliver", Env: &EnvSpec{Call: 0, Hdr: "ok:0", Status: &[2]int64{0, 0}, Trl: trl}})
+						}
+						acts = append(acts, CAct{Op: "recv", C: 0}, CAct{Op: "trailer", C: 0}, CAct{Op: "header", C: 0})
+					} else {
+						acts = append(acts, CAct{Op: "unary", B: 45}, CAct{Op: "deliver", Env: &EnvSpec{Call: 0, Hdr: hdr, Body: i64(4302), Trl: trl}})
+					}
+					acts = append(acts, CAct{Op: "unary", B: 46}, CAct{Op: "deliver", Env: &EnvSpec{Call: 1, Hdr: "ok:0", Body: i64(4303), Trl: "ok:0"}}, CAct{Op: "failread"})
+					sc := clientScenario{Acts: acts, WithStats: st, Tags: []string{fmt.Sprintf("bin-metadata-len-mod-4=%d", len(v)%4), "bin-in:" + pos, "first:" + first, fmt.Sprintf("stats=%v", st)}}
+					if want(idx) {
+						runClientScenarioAs(t, idx, "c13", sc, em, "C13Step", nil)
+					}
+					idx++
+				}
+			}
+		}
+	}
 	// unusual caller metadata on the open x envelopes addressed to that call's id (also when the open FAILED: Guess) while
 	// nobody reads them x a probe call afterwards x Close / read failure: no call may hang, before or after the close
 	seen := map[string]bool{}
